@@ -140,6 +140,11 @@ def run(tier, v):
         synopts = b"\x02\x04\x05\xb4\x04\x02\x08\x0a\x00\x00\x10\x00\x00\x00\x00\x00\x01\x03\x03\x07"
         for k, link in enumerate(("raw", "null")):
             frames.append(c10.relink(c10.frame((10, 7, 1, 1 + k), (10, 7, 0, 2), 41100 + k, 80, 5, 0, 0x02, opts=synopts, ipid=9010 + k), link))
+            # the smallest segments there are, without a link-layer header: a SYN with an MSS option only (44 octets), a SYN+ACK without
+            # options (40), a bare ACK with timestamps (52)
+            frames.append(c10.relink(c10.frame((10, 7, 1, 11 + k), (10, 7, 0, 2), 41110 + k, 80, 5, 0, 0x02, opts=b"\x02\x04\x05\xb4", ipid=9030 + k), link))
+            frames.append(c10.relink(c10.frame((10, 7, 0, 2), (10, 7, 1, 11 + k), 80, 41110 + k, 9, 6, 0x12, ipid=9032 + k), link))
+            frames.append(c10.relink(c10.frame((10, 7, 1, 11 + k), (10, 7, 0, 2), 41110 + k, 80, 6, 10, 0x10, opts=b"\x01\x01\x08\x0a\x00\x00\x20\x00\x00\x00\x00\x00", ipid=9034 + k), link))
         for k, nib in enumerate((0x05, 0x65, 0xf5, 0x15)):
             b = bytearray(c10.frame((10, 7, 2, 1 + k), (10, 7, 0, 2), 41200 + k, 80, 5, 0, 0x02, opts=synopts, ipid=9020 + k))
             b[14] = nib
@@ -211,6 +216,57 @@ def run(tier, v):
                 n_nontriv += any(uni.values()) or any(x for p in res.values() for x in p["f"].values())
                 info[(o["id"], k)] = (ti, cfg, k)
                 f.write(json.dumps({"id": o["id"], "k": k, "cfg": cfg, "res": res, "uni": uni}) + "\n")
+    # ---- the capture front ends: HuginnNet::analyze_pcap against the analyze_pcap of the three protocol analyzers on the same capture
+    # (everything enabled, with the database): per field, the unified analyzer reports what the protocol analyzer reports -- frame by
+    # frame the loop of the front end may not treat a capture differently (framings without link-layer header, short frames, noise)
+    fe = []
+    # connections every analyzer accepts packet by packet (plain flags, no fragments), so that whole captures can be compared
+    trf = c10.build_traces(rng, 4)
+    small = [c10.frame((10, 7, 1, 21), (10, 7, 0, 2), 41120, 80, 5, 0, 0x02, opts=b"\x02\x04\x05\xb4", ipid=9040), c10.frame((10, 7, 0, 2), (10, 7, 1, 21), 80, 41120, 9, 6, 0x12, ipid=9041),
+             c10.frame((10, 7, 1, 21), (10, 7, 0, 2), 41120, 80, 6, 10, 0x10, opts=b"\x01\x01\x08\x0a\x00\x00\x20\x00\x00\x00\x00\x00", ipid=9042)]
+    fe_traces = [[f for crate in ("tcp", "http") for _, f in trf[crate]] + ipv6_connections() + h2_connections() + small]
+    for ti, frames in enumerate(fe_traces):
+        for link in ("asis", "raw", "null"):
+            fs = [f if (link == "asis" or len(f) < 34 or f[12:14] not in (b"\x08\x00", b"\x86\xdd")) else c10.relink(f, link) for f in frames]
+            for crate in ("uni", "tcp", "http"):
+                fe.append({"id": "%d|%s|%s" % (ti, link, crate), "crate": crate, "frames": [f.hex() for f in fs], "matcher": True, "cfg": {"http": True, "tcp": True, "tls": True, "matcher": True}})
+    freq = os.path.join(wd, "fe.req")
+    vlib.write_ndjson(freq, fe)
+    fout = os.path.join(wd, "fe.out")
+    vlib.run_hv_split("ana", freq, fout, parts=6, timeout=3000, env={"HV_PCAP_DIR": os.path.join(wd, "pcap")})
+    got = {}
+    for o in vlib.read_ndjson(fout):
+        ti, link, crate = o["id"].split("|")
+        if "panic" in o:
+            v.violation({"front_end": crate, "framing": link, "observed": "panic: " + o["panic"]})
+            continue
+        bag = []
+        for r_ in o.get("results", []):
+            if crate == "tls":
+                bag.append(("tls", dg(r_)))
+                continue
+            # (the TLS fields of the unified analyzer are those of the STATELESS TLS analyzer, which has no capture front end of its own)
+            for nm in ("syn", "syn_ack", "mtu", "client_uptime", "server_uptime", "req", "resp"):
+                x = r_.get(nm)
+                if not x:
+                    continue
+                if nm in ("req", "resp"):
+                    bag.append((nm, dg({"sig": x["sig"], "src": x["src"], "dst": x["dst"]})))       # what both projections carry
+                else:
+                    bag.append((nm, dg(fld_tcp(nm, x))))
+        got[(ti, link, crate)] = sorted(bag)
+    n_fe = 0
+    for (ti, link, crate), bag in got.items():
+        if crate != "uni":
+            continue
+        union = sorted(sum((got.get((ti, link, c), []) for c in ("tcp", "http")), []))
+        n_fe += 1
+        if bag != union:
+            only_u = [x for x in bag if x not in union]
+            only_p = [x for x in union if x not in bag]
+            v.violation({"path": "analyze_pcap (capture front ends)", "trace": int(ti), "framing": {"asis": "as generated (mostly Ethernet)", "raw": "no link-layer header", "null": "4-octet loopback header"}[link],
+                         "fields_only_the_unified_analyzer_reports": [x[0] for x in only_u][:20], "fields_only_the_protocol_analyzers_report": [x[0] for x in only_p][:20],
+                         "unified_results": len(bag), "protocol_results": len(union)})
     r2 = vlib.tlc("TV_C20", pid=PID, workers=8, env={"TRACE": trace}, timeout=1800, heap="10g")
 
     if tier == "thorough":
